@@ -1225,7 +1225,7 @@ func runKMountC07(c *core.Case, k int) {
 	}
 	cerr := w.exec("COMMIT")
 	hist = append(hist, fmt.Sprintf("lease lost (%s) inside a transaction; COMMIT -> %v", how, cerr))
-	pa := c07Snapshot(P.Node, "db")
+	pa := c07StableSnapshot(P.Node, "db")
 	c.Count("demotions_mid_tx", 1)
 	c.Count("ops_judged", 1)
 	exited := len(P.Node.Exits()) > 0
